@@ -116,7 +116,7 @@ def run(name, props, tier="quick"):
         rc, out, _ = sh("git apply -3 %s && git reset -q" % os.path.join(d, "patch.diff"), "/repo")
     if rc != 0:
         print("patch does not apply to /repo:", out)
-        sh("git checkout -q -- .", "/repo")
+        sh("git reset -q --hard", "/repo")
         return 2
     results = {}
     try:
@@ -127,7 +127,7 @@ def run(name, props, tier="quick"):
                           "first_violation_context": "\n".join(out.splitlines()[-25:])[-1800:] if rc != 0 else ""}
             print("%s vs %s: rc=%d detected=%s wall=%.0fs" % (name, p, rc, results[p]["detected"], w))
     finally:
-        sh("git checkout -q -- . && git clean -fdq", "/repo")
+        sh("git reset -q --hard && git clean -fdq", "/repo")
         # evidence files were rewritten by a run against a modified tree: restore the committed ones
         sh("git checkout -q -- evidence", ROOT)
     rf = os.path.join(d, "result.json")
